@@ -386,7 +386,16 @@ def run(chk):
         todo = [("MCLifecycleGen.cfg", nstop, 2), ("MCNestedGen.cfg", gnstop, 2), ("MCLifecycle.cfg", nstop, nrun),
                 ("MCNested.cfg", nnstop, ninner)] + ([] if quick else [("MCNestedLive.cfg", lnstop, 2)]) + [
                     (c, (1 if quick else 2) if c.startswith("MCNested") else 3, 2) for c, _, _ in expect]
-        jobs = {j[0]: pool.submit(design_job, j) for j in todo}
+        gens = ("MCLifecycleGen.cfg", "MCNestedGen.cfg")
+
+        def late_job(job):   # the expected-counterexample runs give way to the generators (the driver batches wait for those)
+            for g in gens:
+                jobs[g].result()
+            return design_job(job)
+
+        early = [j for j in todo if j[0] in gens or j[0] in ("MCLifecycle.cfg", "MCNested.cfg", "MCNestedLive.cfg")]
+        jobs = {j[0]: pool.submit(design_job, j) for j in early}
+        jobs.update({j[0]: pool.submit(late_job, j) for j in todo if j not in early})
     # ---- 2. build the driver (no cgo: the Go runtime's deadlock detector must be active)
     drv = V.build_driver("c17drv", chk.bindir, tags="verif,netgo,osusergo")
 
